@@ -11,10 +11,12 @@ Require Import TT.Proofs.C06Strings TT.Proofs.C06Proofs TT.Proofs.C06Main TT.Pro
 Import ListNotations.
 Local Open Scope list_scope.
 
-(* For every container kind, container attribute list, ASCII identifier (plain or raw: r#type is named
+(* Attribute spellings: rename = v and rename(serialize = v, deserialize = w) in either order or with one
+   side only, likewise rename_all; other container keys (flags and key = value) anywhere.
+   For every container kind, container attribute list, ASCII identifier (plain or raw: r#type is named
    type, as serde does) and item attribute list of the
    domain (rename = any string, skip, any other name or name = any string, in any order, in any number
-   of #[serde] attributes) outside the four remaining classes: the emitted keys / literals are exactly
+   of #[serde] attributes) outside the six recorded classes (C06-2, -3, -4, -5, -8, -9): the emitted keys / literals are exactly
    serde's wire names - an item rename wins, the container rule is the field rule for struct fields
    and the variant rule for variants, unattributed items keep their Rust name, an item is absent iff
    it carries skip. (The naming routines are total since the camelCase guards.) *)
@@ -96,10 +98,15 @@ Proof. exact rules_agree. Qed.
 
 (* the scanners on one attribute, on the complement of C06-4 / C06-5 and for every value text *)
 Theorem C06_parse_rename : forall g : group,
+  forallb other_ok g = true ->
   (forall m, In m g -> rename_free m) ->
-  (forall v, first_rename g = Some v -> needs_escape v = false) ->
-  parse_rename (group_string g) = first_rename g.
+  (forall v, head_rename g = Some v -> needs_escape v = false) ->
+  parse_rename (group_string g) = head_rename g.
 Proof. exact parse_rename_group. Qed.
+(* the head value (first quoted value after the key, either spelling) is the serialize name outside C06-8 *)
+Theorem C06_head_is_serialize : forall g : group, forallb other_ok g = true ->
+  (forall l, In (MRenameP l) g -> sd_bad l = false) -> head_rename g = first_rename g.
+Proof. exact head_rename_is_first. Qed.
 
 Theorem C06_skip_test : forall g : group,
   field_skip (group_string g) = existsb skip_in g && negb (existsb skipser_in g).
@@ -129,6 +136,16 @@ Theorem C06_skip_text_variant_refuted : refutes kf_skip_text w2e [L "A"] /\ serd
 Proof. exact skip_text_variant_refuted. Qed.
 Theorem C06_skip_beside_variant_refuted : refutes kf_skip_beside w3e [L "A"; L "B"] /\ serde_wire_names w3e = [L "A"].
 Proof. exact skip_beside_variant_refuted. Qed.
+(* C06-8: the parenthesised form with deserialize first (or alone); C06-9: rename_all_fields read as rename_all *)
+Theorem C06_sd_first_refuted : refutes kf_sd_first w8 [L "userId"] /\ serde_wire_names w8 = [L "user_id"] /\
+  refutes kf_sd_first w8i [L "de_name"] /\ serde_wire_names w8i = [L "ser_name"].
+Proof. exact sd_first_refuted. Qed.
+Theorem C06_rename_all_text_refuted : refutes kf_rename_all_text w9 [L "taskStarted"] /\ serde_wire_names w9 = [L "TaskStarted"].
+Proof. exact rename_all_text_refuted. Qed.
+(* every variant shape (unit, tuple, struct) is named by the variant routine: the three markers
+   parse_enum writes all pass the starts_with test of FieldContext::from_field_info *)
+Theorem C06_variant_shapes : forall sh : shape, named_as_variant (variant_marker sh) = true.
+Proof. exact variant_marker_is_variant. Qed.
 (* inside C06-3 inertness fails: skip_serializing_if beside skip brings the field back *)
 Theorem C06_other_attrs_inert_refuted :
   same_modulo_others w3' w3 /\ in_domain w3' = true /\ in_domain w3 = true /\ kf_C06 w3' = false /\
@@ -166,6 +183,18 @@ Example C06_ex_print :
   key_text_of false (L "a\""b c") = L """a\\\""b c""" /\ ident_bytes (L "user_id") = true /\ ident_bytes (L "user-id") = false /\
   union_text [L "IN_PROGRESS"; L "a\"] = L """IN_PROGRESS"" | ""a\\""".
 Proof. vm_compute. repeat split. Qed.
+(* every legal spelling of the container and item attributes, outside the classes: the parenthesised
+   form with serialize first or alone, other keys before and after, split over several attributes *)
+Definition ex_spellings : container :=
+  {| c_kind := KEnum;
+     c_attrs := [[CFlag (L "deny_unknown_fields"); CKV (L "tag") (L "type")];
+                 [CRenameAllP [(true, L "snake_case"); (false, L "camelCase")]; CKV (L "rename") (L "Wire")]];
+     c_items := [it0 "TaskStarted" []; it0 "HTTPError" [[MRenameP [(true, L "http")]]];
+                 it0 "Moved" [[MOther (L "alias") (Some (L "mv"))]; [MRenameP [(true, L "moved-to"); (false, L "m")]]]] |}.
+Example C06_ex_spellings :
+  in_domain ex_spellings = true /\ kf_C06 ex_spellings = false /\
+  emitted_keys default_field_case ex_spellings = [L "task_started"; L "http"; L "moved-to"].
+Proof. vm_compute. repeat split. Qed.
 (* an unattributed struct keeps the Rust names *)
 Example C06_ex_plain :
   emitted_keys default_field_case {| c_kind := KStruct; c_attrs := []; c_items := [it0 "user_id" []; it0 "URL" []] |}
@@ -198,6 +227,7 @@ Print Assumptions C06_field_rule.
 Print Assumptions C06_variant_rule.
 Print Assumptions C06_rules_agree.
 Print Assumptions C06_parse_rename.
+Print Assumptions C06_head_is_serialize.
 Print Assumptions C06_skip_test.
 Print Assumptions C06_variant_rule_repaired.
 Print Assumptions C06_variant_skip_repaired.
@@ -207,4 +237,7 @@ Print Assumptions C06_rename_escape_refuted.
 Print Assumptions C06_rename_text_refuted.
 Print Assumptions C06_skip_text_variant_refuted.
 Print Assumptions C06_skip_beside_variant_refuted.
+Print Assumptions C06_sd_first_refuted.
+Print Assumptions C06_rename_all_text_refuted.
+Print Assumptions C06_variant_shapes.
 Print Assumptions C06_other_attrs_inert_refuted.
